@@ -60,8 +60,6 @@ structure Obj where
 
 structure Actor where
   sts : StsPc := .out
-  issue : Option Nat := none    -- epoch of the target when the current wake request was issued
-                                -- (none: the target was pending / terminated at that moment)
   sas : Option (Nat × W × W) := none   -- inside set_active_state: (object, loaded word, remembered word)
   deriving Repr
 
@@ -104,7 +102,7 @@ def unreferenced (x : Obj) : Bool :=
 def step (s : St) : Ev → Option St
   | .new _ o w =>
     let x := s.obj o
-    if (!x.live ∨ unreferenced x) ∧ w.tag = 0 ∧ w.st = sPending then
+    if unreferenced x ∧ w.tag = 0 ∧ w.st = sPending then
       some { s with obj := upd s.obj o { live := true, w := w, helpers := x.helpers, epoch := x.epoch + 1 } }
     else none
   | .rebind _ o w =>
@@ -189,8 +187,7 @@ def step (s : St) : Ev → Option St
     let x := s.obj o
     let ac := s.act a
     if x.live ∧ ac.sts = .out ∧ ns = sPending then
-      let iss : Option Nat := if pendingish x.w || x.w.st == sTerminated then none else some x.epoch
-      some { s with act := upd s.act a ({ ac with sts := .entered o, issue := iss }) }
+      some { s with act := upd s.act a ({ ac with sts := .entered o }) }
     else none
   | .stsLoad a o w =>
     let x := s.obj o
@@ -234,7 +231,7 @@ def step (s : St) : Ev → Option St
     match ac.sts with
     | .loaded o' lw =>
       if o' = o ∧ (lw.st = sPending ∨ lw.st = sTerminated) then
-        some { s with act := upd s.act a ({ ac with sts := .out, issue := none }) }
+        some { s with act := upd s.act a ({ ac with sts := .out }) }
       else none
     | _ => none
   | .stsHelper a o =>
@@ -245,7 +242,7 @@ def step (s : St) : Ev → Option St
     | .loaded o' lw =>
       if o' = o ∧ lw.st = sActive then
         some { obj := upd s.obj o { x with helpers := lw :: x.helpers },
-               act := upd s.act a ({ ac with sts := .out, issue := none }) }
+               act := upd s.act a ({ ac with sts := .out }) }
       else none
     | _ => none
   | .stsDone a o =>
@@ -254,7 +251,7 @@ def step (s : St) : Ev → Option St
     match ac.sts with
     | .loaded o' lw =>
       if o' = o ∧ pendingish lw then
-        some { s with act := upd s.act a ({ ac with sts := .out, issue := none }) }
+        some { s with act := upd s.act a ({ ac with sts := .out }) }
       else none
     | _ => none
   | .sasLoad a o cur prev =>
